@@ -63,7 +63,7 @@ def _interp(ctx, cls: str, q: str, out: Scalings, depth: int, self_is_subject: b
     if depth > 6 or q in out.methods:
         return
     out.methods.append(q)
-    fn = M.fn(q)
+    fn = M.nfn(q)
     ps = [p for p in params_of(fn.node) if p not in ("self", "cls")]
     if len(ps) != 1:
         out.undecided.append(f"{short(q)}: expected exactly one rate parameter")
